@@ -238,7 +238,7 @@ func checkDefs() map[string]*CheckDef {
 					rh("candidates-nominated-twice", "VerifC06", map[string]int{"K": 2, "PORDER": 0, "DUPPROC": 1, "PRESET": 0}, "start ok", "candidates nominated by two processors"),
 					rh("sealed-interface", "VerifC06Sealed", nil, "sealed interface"),
 					rh("component-at-the-holders-address", "VerifC06FirstField", nil, "component at the holder's address"),
-					rh("func-returns", "VerifC06Returns", map[string]int{"K": tierPick(tier, 2, 3)}, "both func points populated"),
+					rh("func-returns", "VerifC06Returns", map[string]int{"K": tierPick(tier, 2, 3)}, "both func points populated", "a component whose method of the requested name takes parameters"),
 					rh("declining-user-processor", "VerifC06", map[string]int{"K": 1, "PORDER": 0, "PROC0": 1, "PRESET": 0}, "start ok", "start failed"),
 					rh("same-named-types", "VerifC06SameName", map[string]int{"K": tierPick(tier, 2, 3)}, "two same-named interface types"),
 				}
